@@ -192,6 +192,10 @@ CheckEff(e, env) ==
     LET op == e.op n == Len(e.args) IN
     IF env.err # "" THEN env ELSE
     CASE op \in {"NOP", "EMPTY", "SLOT_CANCEL"} -> env
+      [] op = "GET_NPC" ->
+            IF "ret_val" \in DOMAIN env.loc /\ env.loc["ret_val"] # BVS(64)
+            THEN Fail(env, "local ret_val changes sort from " \o ToString(env.loc["ret_val"]) \o " to bv 64")
+            ELSE [env EXCEPT !.loc = ("ret_val" :> BVS(64)) @@ env.loc, !.avail = env.avail \cup {"ret_val"}]
       [] op = "SEQN" -> IF e.n # n THEN Fail(env, "SEQN count " \o ToString(e.n) \o " with " \o ToString(n) \o " arguments") ELSE CheckSeq(e.args, 1, env)
       [] op = "SEQ2" -> IF n # 2 THEN Fail(env, "SEQ2 arity") ELSE CheckSeq(e.args, 1, env)
       [] op = "SETL" ->
